@@ -252,7 +252,7 @@ func checkC10(w *World, run *simrt.Run) {
 			}
 		} else {
 			// sibling of a closed stream: must be undisturbed
-			if s.ClientBlocked || s.ClientReadErr != "" || s.ClientWriteErr != "" || !idsEqual(s.CGot, s.SSent) || s.Foreign > 0 || s.BadPayload > 0 {
+			if s.ClientBlocked || (s.ClientReadErr != "" && !s.ReadErrAtTeardown) || s.ClientWriteErr != "" || !isPrefix(s.CGot, s.SSent) || s.Foreign > 0 || s.BadPayload > 0 {
 				w.Violate("C10.sibling-disturbed", "sibling-stream-disturbed", fmt.Sprintf("stream %d: after closing stream %d: blocked=%v readErr=%q writeErr=%q got %v of %v", s.Idx, f.Stream, s.ClientBlocked, s.ClientReadErr, s.ClientWriteErr, s.CGot, s.SSent))
 			} else {
 				w.Probe("sibling-stream-ok")
